@@ -39,7 +39,7 @@ def replay_case(case, tag, rng, tier):
            "nontrivial": case["cls"][2] not in ("Outside", "outside")}
     for pose in common.poses_for((x, c), rng, 2, s):
         num = common.num_for(rng, pose, (x, c))
-        lx, lc = build(x, pose, num), build(c, pose, num)
+        lx, lc = common.build_variant(x, pose, num, rng), common.build_variant(c, pose, num, rng)
         val, exc = call(lambda: lx in lc)
         out["calls"] += 1
         obs = exc or observe(val)
